@@ -343,10 +343,15 @@ func (e *Eng) doCall(fr *Frame, st *State, instr ssa.Instruction, cc *ssa.CallCo
 		case "(*sync.Mutex).Lock", "(*sync.RWMutex).Lock", "(*sync.RWMutex).RLock":
 			if isGlobalAddr(cc.Args[0]) {
 				e.hstore(st, "G|holds_globallock", nil, types.Typ[types.Bool], T("true"))
+			} else if fr.fn == e.fn || fr.fn.Parent() == e.fn {
+				// a mutex inside some object (an endpoint, a table): whoever else uses that object waits for it
+				e.hstore(st, "G|holds_objectlock", nil, types.Typ[types.Bool], T("true"))
 			}
 		case "(*sync.Mutex).Unlock", "(*sync.RWMutex).Unlock", "(*sync.RWMutex).RUnlock":
 			if isGlobalAddr(cc.Args[0]) {
 				e.hstore(st, "G|holds_globallock", nil, types.Typ[types.Bool], T("false"))
+			} else if fr.fn == e.fn || fr.fn.Parent() == e.fn {
+				e.hstore(st, "G|holds_objectlock", nil, types.Typ[types.Bool], T("false"))
 			}
 		}
 	}
@@ -1106,6 +1111,10 @@ func (e *Eng) applyContract(fr *Frame, st *State, instr ssa.Instruction, fc *Fun
 		if _, used := e.heapNames["G|holds_globallock"]; used {
 			held := e.heapTerm(st, "G|holds_globallock", "Bool")
 			e.oblige(st, "lock.blocking", "["+disp0(e, fc, key)+"]", e.allProps(), tNot(held), instr, "no package-level lock is held across a call that "+fc.Blocks)
+		}
+		if _, used := e.heapNames["G|holds_objectlock"]; used {
+			held := e.heapTerm(st, "G|holds_objectlock", "Bool")
+			e.oblige(st, "lock.blocking", "["+disp0(e, fc, key)+"].objectlock", e.allProps(), tNot(held), instr, "no mutex taken in this function is still held across a call that "+fc.Blocks)
 		}
 		// ... nor on a loop that accepts peers or streams (the tokens named *accept_loop): everybody who
 		// connects afterwards would wait for this one peer
